@@ -603,6 +603,67 @@ class Interp:
             node._is_gen = cache
         return cache
 
+    class Coroutine:
+        """a generator function being run: its body executes on a thread of its own that runs only between a request for the next item
+        and the next `yield` (strict hand-over, never concurrently with the consumer) - so the body is suspended at each yield exactly
+        as Python suspends it, and what the consumer does in between is visible to it"""
+        def __init__(self, interp, f, fr):
+            import threading
+            self.interp, self.f, self.fr = interp, f, fr
+            self.to_gen, self.to_main = threading.Semaphore(0), threading.Semaphore(0)
+            self.item, self.done, self.exc, self.thread = None, False, None, None
+            self.cur, self.depth = list(interp.cur), interp.depth
+
+        def body(self):
+            self.to_gen.acquire()
+            try:
+                self.interp.block(self.f.node.body, self.fr)
+            except ReturnEx:
+                pass
+            except BaseException as e:      # whatever ends the body ends the consumer's next() the same way
+                self.exc = e
+            self.done = True
+            self.to_main.release()
+
+        def emit(self, v):
+            self.item = v
+            self.to_main.release()
+            self.to_gen.acquire()
+
+        def next(self):
+            import threading
+            if self.done:
+                raise StopIter()
+            it = self.interp
+            if self.thread is None:
+                old = threading.stack_size()
+                try:
+                    threading.stack_size(512 * 1024 * 1024)
+                    self.thread = threading.Thread(target=self.body, daemon=True)
+                    self.thread.start()
+                finally:
+                    threading.stack_size(old)
+            saved = (it.cur, it.depth)
+            it.cur, it.depth = self.cur, self.depth
+            self.to_gen.release()
+            self.to_main.acquire()
+            self.cur, self.depth = it.cur, it.depth
+            it.cur, it.depth = saved
+            if self.exc is not None:
+                e, self.exc = self.exc, None
+                raise e
+            if self.done:
+                raise StopIter()
+            return self.item
+
+        def pump(self):
+            while True:
+                try:
+                    x = self.next()
+                except StopIter:
+                    return
+                yield x
+
     def gen_sink(self, fr):
         f = fr
         while f is not None:
@@ -612,15 +673,15 @@ class Interp:
         raise Fail('yield outside a generator frame')
 
     def ev_Yield(self, n, fr):
-        # generators are run eagerly to completion when called (the package's generators are finite and do not interleave with their consumer)
-        self.gen_sink(fr).append(self.ev(n.value, fr) if n.value is not None else K(None))
-        return K(None)
+        sink = self.gen_sink(fr)
+        sink.emit(self.ev(n.value, fr) if n.value is not None else K(None))
+        return K(None)          # nothing is sent into the package's generators
 
     def ev_YieldFrom(self, n, fr):
-        items = self.iterate(self.ev(n.value, fr))
-        if items is None:
-            raise Fail('yield from an unknown iterable')
-        self.gen_sink(fr).extend(items)
+        sink = self.gen_sink(fr)
+        src = self.ev(n.value, fr)
+        for x in self.pull_iter(src, n):
+            sink.emit(x)
         return K(None)
 
     def ev_Starred(self, n, fr):
@@ -1724,12 +1785,9 @@ class Interp:
             if isinstance(node, ast.Lambda):
                 return self.ev(node.body, fr)
             if self.is_generator(node):
-                fr.gen = []
-                try:
-                    self.block(node.body, fr)
-                except ReturnEx:
-                    pass
-                return IterV(list(fr.gen))
+                fr.gen = self.Coroutine(self, f, fr)
+                fr.gen.cur = list(self.cur)
+                return IterV(gen=fr.gen.pump())
             try:
                 self.block(node.body, fr)
             except ReturnEx as r:
